@@ -772,8 +772,11 @@ class REPEX_state:
             fracs = [str(i) for i in self.traj_data[key]["frac"]]
             self.config["current"]["frac"][str(key)] = fracs
 
-        with open("./restart.toml", "wb") as f:
+        # write a new file and swap it in: a crash while writing must never
+        # leave a torn restart file behind
+        with open("./restart.toml.tmp", "wb") as f:
             tomli_w.dump(self.config, f)
+        os.replace("./restart.toml.tmp", "./restart.toml")
 
     def write_pattern(self, md_items):
         """Pattern writer."""
